@@ -1,8 +1,617 @@
-/- EmdModel.Container — (stub; filled in by the property that owns it) -/
+/-
+  EmdModel.Container — model of emd/cycles.py:Cycles (the cycle container, C15) and of the
+  slice-cache / label-lookup statistics in emd/_cycles_support.py.
+
+  The container is a state machine.  Its state is the per-sample label vector `cv`
+  (from `get_cycle_vector(return_good=False)`, model: `Cycles.cvSegs`), the number of
+  cycles `K`, the ordered metric store (a Python dict: insertion ordered, overwriting keeps the
+  position), the current selection (condition strings, subset vector, chain vector — set
+  together by `pick_cycle_subset`) and the `use_cache` flag.
+
+  Library numerics are parameters: the reducing function `f : List Rat → Rat` is arbitrary, and
+  Python's `float(text)` is the oracle `F : List Char → Option Rat` (`none` = ValueError).
+  A metric entry is `Val = Option Rat`, `none` standing for NaN.
+
+  The model follows the code as repaired by the `fix:` commits of this property
+  (see harness/props/c15.py, corpus): slice cache built per labelled run, augmented slices
+  built with the same rule as `map_cycle_to_samples_augmented`, NaN where no augmented segment
+  exists, `add_cycle_metric` raising on a length mismatch, atomic `pick_cycle_subset` that
+  accepts an empty selection, subset export driven by the stored subset vector.
+-/
 import EmdModel.Protocol
+import EmdModel.Cycles
 
 namespace Container
 
-def handle (_o : Protocol.Op) : Option String := none
+abbrev Val := Option Rat
+abbrev Name := List Char
+abbrev Cond := List Char
+abbrev Store := List (Name × List Val)
+
+/-! ### metric store -/
+
+def sget : Store → Name → Option (List Val)
+  | [], _ => none
+  | (n, v) :: t, k => if n = k then some v else sget t k
+
+def sset : Store → Name → List Val → Store
+  | [], k, v => [(k, v)]
+  | (n, w) :: t, k, v => if n = k then (n, v) :: t else (n, w) :: sset t k v
+
+/-! ### condition strings (`Cycles._parse_condition`) -/
+
+inductive Cmp where
+  | eq | ne | le | ge | lt | gt
+  deriving DecidableEq, Repr
+
+/-- `np.equal / not_equal / less_equal / greater_equal / less / greater` on one metric entry and
+    the literal; every comparison with NaN is false except `!=` -/
+def Cmp.eval : Cmp → Val → Rat → Bool
+  | .ne, none, _ => true
+  | _, none, _ => false
+  | .eq, some a, b => decide (a = b)
+  | .ne, some a, b => !decide (a = b)
+  | .le, some a, b => decide (a ≤ b)
+  | .ge, some a, b => decide (b ≤ a)
+  | .lt, some a, b => decide (a < b)
+  | .gt, some a, b => decide (b < a)
+
+def Cmp.sym : Cmp → List Char
+  | .eq => ['=', '='] | .ne => ['!', '='] | .le => ['<', '='] | .ge => ['>', '=']
+  | .lt => ['<'] | .gt => ['>']
+
+inductive Err where
+  | value | index | key | unbound
+  deriving DecidableEq, Repr
+
+def Err.kind : Err → String
+  | .value => "ValueError" | .index => "IndexError" | .key => "KeyError"
+  | .unbound => "Other:UnboundLocalError"
+
+/-- the character class of `re.split(r'[=<>!]', cond)` and of `comp.lstrip('!=<>')` -/
+def isCmpChar (c : Char) : Bool := c == '=' || c == '<' || c == '>' || c == '!'
+
+/-- the if/elif chain: two-character comparators first, then the one-character ones -/
+def recogniseCmp : List Char → Option Cmp
+  | '=' :: '=' :: _ => some .eq
+  | '!' :: '=' :: _ => some .ne
+  | '<' :: '=' :: _ => some .le
+  | '>' :: '=' :: _ => some .ge
+  | '<' :: _ => some .lt
+  | '>' :: _ => some .gt
+  | _ => none
+
+/-- `_parse_condition`: name = text before the first comparator character; comp = the rest;
+    empty comp → `comp[0]` raises IndexError; literal = comp without leading comparator
+    characters, converted by `float` (oracle `F`, ValueError when it does not parse); an
+    unrecognised comparator leaves `func` unbound → UnboundLocalError at the return. -/
+def parseCondition (F : List Char → Option Rat) (s : Cond) : Except Err (Name × Cmp × Rat) :=
+  let name := s.takeWhile (fun c => !isCmpChar c)
+  let comp := s.dropWhile (fun c => !isCmpChar c)
+  match comp with
+  | [] => .error .index
+  | _ :: _ =>
+    match recogniseCmp comp, F (comp.dropWhile isCmpChar) with
+    | _, none => .error .value
+    | none, some _ => .error .unbound
+    | some c, some v => .ok (name, c, v)
+
+def evalCond (F : List Char → Option Rat) (m : Store) (c : Cond) : Except Err (List Bool) :=
+  match parseCondition F c with
+  | .error e => .error e
+  | .ok (name, cmp, v) =>
+    match sget m name with
+    | none => .error .key
+    | some col => .ok (col.map fun x => cmp.eval x v)
+
+def evalConds (F : List Char → Option Rat) (m : Store) : List Cond → Except Err (List (List Bool))
+  | [] => .ok []
+  | c :: t =>
+    match evalCond F m c with
+    | .error e => .error e
+    | .ok col =>
+      match evalConds F m t with
+      | .error e => .error e
+      | .ok cols => .ok (col :: cols)
+
+def isGoodName : Name := "is_good".toList
+def chainIndName : Name := "chain_ind".toList
+def indexName : Name := "index".toList
+def level0Name : Name := "level_0".toList
+
+/-- `get_matching_cycles`: one row per entry of `metrics['is_good']`, one column per condition,
+    `np.all(axis=1)` -/
+def matching (F : List Char → Option Rat) (m : Store) (conds : List Cond) : Except Err (List Bool) :=
+  match sget m isGoodName with
+  | none => .error .key
+  | some g =>
+    match evalConds F m conds with
+    | .error e => .error e
+    | .ok cols => .ok ((List.range g.length).map fun k => cols.all fun col => col[k]?.getD false)
+
+/-! ### subset and chain vectors (`get_subset_vector`, `get_chain_vector`) -/
+
+def subsetFrom : Nat → List Bool → List Int
+  | _, [] => []
+  | c, true :: t => (c : Int) :: subsetFrom (c + 1) t
+  | c, false :: t => -1 :: subsetFrom c t
+
+def subsetVector (valids : List Bool) : List Int := subsetFrom 0 valids
+
+/-- `np.where(p)[0]`, positions counted from `i` -/
+def indicesFrom {α : Type} (p : α → Bool) : Nat → List α → List Nat
+  | _, [] => []
+  | i, a :: t => if p a then i :: indicesFrom p (i + 1) t else indicesFrom p (i + 1) t
+
+def selected (subset : List Int) : List Nat := indicesFrom (fun l => decide (-1 < l)) 0 subset
+
+/-- the loop of `get_chain_vector`: previous selected cycle index `p`, running chain number `c`;
+    a difference of one continues the chain, a larger one starts the next
+    (the selected indices are strictly increasing, so the difference is never below one) -/
+def chainFrom : Nat → Nat → List Nat → List Nat
+  | _, _, [] => []
+  | p, c, i :: t => if i = p + 1 then c :: chainFrom i c t else (c + 1) :: chainFrom i (c + 1) t
+
+def chainOfSel : List Nat → List Nat
+  | [] => []
+  | i :: t => 0 :: chainFrom i 0 t
+
+def chainVector (subset : List Int) : List Nat := chainOfSel (selected subset)
+
+/-- number of chains: `chain_vect.max() + 1`, zero for an empty selection -/
+def nChains (chain : List Nat) : Nat :=
+  match chain with
+  | [] => 0
+  | c :: t => t.foldl max c + 1
+
+/-- `project_chain_to_subset` -/
+def projChainToSubset (cvals : List Val) (chain : List Nat) : List Val :=
+  chain.map fun c => (cvals[c]?).join
+
+/-- `project_subset_to_cycles` -/
+def projSubsetToCycles (svals : List Val) (subset : List Int) : List Val :=
+  subset.map fun j => if 0 ≤ j then (svals[j.toNat]?).join else none
+
+def projChainToCycles (cvals : List Val) (chain : List Nat) (subset : List Int) : List Val :=
+  projSubsetToCycles (projChainToSubset cvals chain) subset
+
+/-- `vals[np.isnan(vals)] = -1` (then `astype(int)`, the identity on the integral values it is used for) -/
+def nanToMinusOne (v : List Val) : List Val := v.map fun | none => some (-1) | some x => some x
+
+/-- `float.astype(int)`: truncation toward zero -/
+def truncR (x : Rat) : Rat := ((x.num.tdiv (x.den : Int) : Int) : Rat)
+
+/-- the dtype=int route of `compute_chain_metric`: NaN becomes -1, then `astype(int)` -/
+def toIntVals (v : List Val) : List Val := v.map fun | none => some (-1) | some x => some (truncR x)
+
+/-- the `chain_ind` metric written by `pick_cycle_subset` -/
+def chainInd (subset : List Int) (chain : List Nat) : List Val :=
+  nanToMinusOne (projChainToCycles ((List.range (nChains chain)).map fun (c : Nat) => some (c : Rat)) chain subset)
+
+/-! ### per-cycle statistics: label lookup and slice cache -/
+
+/-- `vals[np.where(cycle_vect == k)[0]]` -/
+def samplesOf (cv : List Int) (vals : List Rat) (k : Int) : List Rat :=
+  ((cv.zip vals).filter fun p => decide (p.1 = k)).map (·.2)
+
+def maxLabel (cv : List Int) : Int := cv.foldl max (-1)
+
+/-- `np.max(cycle_vect) + 1` (labels are ≥ -1) -/
+def nLabels (cv : List Int) : Nat := (maxLabel cv + 1).toNat
+
+/-- `get_cycle_stat_from_samples` -/
+def lookupStat (f : List Rat → Rat) (cv : List Int) (vals : List Rat) : List Val :=
+  (List.range (nLabels cv)).map fun (k : Nat) => some (f (samplesOf cv vals (k : Int)))
+
+/-- run-length encoding of the label vector: (label, length) of every maximal constant run -/
+def rle : List Int → List (Int × Nat)
+  | [] => []
+  | a :: t =>
+    match rle t with
+    | (b, n) :: r => if a = b then (b, n + 1) :: r else (a, 1) :: (b, n) :: r
+    | [] => [(a, 1)]
+
+/-- one `slice(start, stop)` per labelled run, in temporal order -/
+def sliceFrom : Nat → List (Int × Nat) → List (Nat × Nat)
+  | _, [] => []
+  | off, (l, n) :: t =>
+    if 0 ≤ l then (off, off + n) :: sliceFrom (off + n) t else sliceFrom (off + n) t
+
+/-- `make_slice_cache` -/
+def sliceCache (cv : List Int) : List (Nat × Nat) := sliceFrom 0 (rle cv)
+
+/-- `vals[start:stop]` -/
+def sliceVals (vals : List Rat) (s : Nat × Nat) : List Rat := (vals.drop s.1).take (s.2 - s.1)
+
+/-- `get_slice_stat_from_samples` (`None` slices give NaN) -/
+def sliceStat (f : List Rat → Rat) (vals : List Rat) (sl : List (Option (Nat × Nat))) : List Val :=
+  sl.map fun | none => none | some s => some (f (sliceVals vals s))
+
+/-- first index of `idx` whose phase exceeds the threshold (`np.where(phase[idx] > 1.5*pi)[0][0]`) -/
+def firstAbove (thr : Rat) (ph : List Rat) (idx : List Nat) : Option Nat :=
+  idx.find? fun i => decide (thr < ph[i]?.getD 0)
+
+def indicesOf (cv : List Int) (k : Int) : List Nat := indicesFrom (fun l => decide (l = k)) 0 cv
+
+/-- `map_cycle_to_samples_augmented` as a half-open range: from the first sample of cycle k-1
+    past the trough to the last sample of cycle k; `none` without such a sample -/
+def augInds (thr : Rat) (ph : List Rat) (cv : List Int) (k : Nat) : Option (Nat × Nat) :=
+  match firstAbove thr ph (indicesOf cv ((k : Int) - 1)) with
+  | none => none
+  | some t =>
+    match (indicesOf cv (k : Int)).getLast? with
+    | none => none
+    | some e => some (t, e + 1)
+
+/-- `get_augmented_cycle_stat_from_samples` -/
+def lookupAugStat (f : List Rat → Rat) (thr : Rat) (ph : List Rat) (cv : List Int) (vals : List Rat) : List Val :=
+  (List.range (nLabels cv)).map fun k =>
+    match augInds thr ph cv k with
+    | none => none
+    | some s => some (f (sliceVals vals s))
+
+/-- `make_aug_slice_cache`: every slice is extended into its predecessor, the first has none -/
+def augSlices (thr : Rat) (ph : List Rat) : Option (Nat × Nat) → List (Nat × Nat) → List (Option (Nat × Nat))
+  | _, [] => []
+  | prev, s :: t =>
+    (match prev with
+      | none => none
+      | some p => (firstAbove thr ph (List.range' p.1 (p.2 - p.1))).map fun i => (i, s.2))
+      :: augSlices thr ph (some s) t
+
+inductive Mode where
+  | cycle | augmented
+  deriving DecidableEq, Repr
+
+/-- the four branches of `compute_cycle_metric` -/
+def cycleStat (cache : Bool) (mode : Mode) (f : List Rat → Rat) (thr : Rat) (ph : List Rat)
+    (cv : List Int) (vals : List Rat) : List Val :=
+  match cache, mode with
+  | false, .cycle => lookupStat f cv vals
+  | true, .cycle => sliceStat f vals ((sliceCache cv).map some)
+  | false, .augmented => lookupAugStat f thr ph cv vals
+  | true, .augmented => sliceStat f vals (augSlices thr ph none (sliceCache cv))
+
+/-! ### chain statistics (`get_chain_stat_from_samples`, always by lookup) -/
+
+/-- `map_chain_to_samples`: chain → subset indices → cycle → samples -/
+def chainSamples (cv : List Int) (subset : List Int) (chain : List Nat) (vals : List Rat) (c : Nat) : List Rat :=
+  (indicesFrom (fun x => decide (x = c)) 0 chain).flatMap fun (jj : Nat) =>
+    (indicesFrom (fun l => decide (l = (jj : Int))) 0 subset).flatMap fun (k : Nat) => samplesOf cv vals (k : Int)
+
+def chainStat (f : List Rat → Rat) (cv : List Int) (subset : List Int) (chain : List Nat) (vals : List Rat) : List Val :=
+  (List.range (nChains chain)).map fun c => some (f (chainSamples cv subset chain vals c))
+
+/-- position of every subset cycle inside its chain (`compute_position_in_chain`) -/
+def posInChainFrom : List Nat → List Nat → List Nat
+  | _, [] => []
+  | seen, c :: t => (seen.filter (· = c)).length :: posInChainFrom (c :: seen) t
+
+def posInChain (chain : List Nat) : List Nat := posInChainFrom [] chain
+
+/-! ### state machine -/
+
+structure Sel where
+  conds : List Cond
+  subset : List Int
+  chain : List Nat
+
+structure State where
+  cv : List Int
+  K : Nat
+  phase : List Rat
+  thr : Rat
+  cache : Bool
+  metrics : Store
+  sel : Option Sel
+
+structure Table where
+  cols : List Name
+  rows : List (List Val)
+
+inductive ExportMode where
+  | all | subset | conds (c : List Cond)
+
+inductive Op where
+  | computeMetric (name : Name) (vals : List Rat) (f : List Rat → Rat) (mode : Mode)
+  | addMetric (name : Name) (vals : List Val)
+  | computeTimings
+  | pickSubset (conds : List Cond)
+  | computeChainMetric (name : Name) (vals : List Rat) (f : List Rat → Rat) (asInt : Bool)
+  | computeChainTimings
+  | export (m : ExportMode)
+  | matching (conds : List Cond)
+
+inductive Out where
+  | done
+  | table (t : Table)
+  | bools (b : List Bool)
+
+/-- `add_cycle_metric` / `_safe_add_metric`: the length guard -/
+def addMetric (s : State) (name : Name) (v : List Val) : State × Except Err Out :=
+  if v.length = s.K then ({ s with metrics := sset s.metrics name v }, .ok .done)
+  else (s, .error .value)
+
+def computeMetric (s : State) (name : Name) (vals : List Rat) (f : List Rat → Rat) (mode : Mode) :
+    State × Except Err Out :=
+  addMetric s name (cycleStat s.cache mode f s.thr s.phase s.cv vals)
+
+def fFirst (l : List Rat) : Rat := l.head?.getD 0
+def fLast (l : List Rat) : Rat := l.getLast?.getD 0
+def fLen (l : List Rat) : Rat := (l.length : Rat)
+def fNunique (l : List Rat) : Rat := (l.eraseDups.length : Rat)
+
+def arange (n : Nat) : List Rat := (List.range n).map fun (i : Nat) => (i : Rat)
+def cvRat (cv : List Int) : List Rat := cv.map fun (l : Int) => (l : Rat)
+
+/-- run operations in order, stopping at the first that raises -/
+def seqOps (s : State) : List (State → State × Except Err Out) → State × Except Err Out
+  | [] => (s, .ok .done)
+  | o :: t =>
+    match o s with
+    | (s', .ok _) => seqOps s' t
+    | (s', .error e) => (s', .error e)
+
+def computeTimings (s : State) : State × Except Err Out :=
+  seqOps s [
+    fun s => computeMetric s "start_sample".toList (arange s.cv.length) fFirst .cycle,
+    fun s => computeMetric s "stop_sample".toList (arange s.cv.length) fLast .cycle,
+    fun s => computeMetric s "duration".toList (cvRat s.cv) fLen .cycle]
+
+/-- `pick_cycle_subset`: evaluate the conditions first; nothing changes when they are rejected -/
+def pickSubset (F : List Char → Option Rat) (s : State) (conds : List Cond) : State × Except Err Out :=
+  match matching F s.metrics conds with
+  | .error e => (s, .error e)
+  | .ok valids =>
+    let subset := subsetVector valids
+    let chain := chainVector subset
+    addMetric { s with sel := some { conds, subset, chain } } chainIndName (chainInd subset chain)
+
+def computeChainMetric (s : State) (name : Name) (vals : List Rat) (f : List Rat → Rat) (asInt : Bool) :
+    State × Except Err Out :=
+  match s.sel with
+  | none => (s, .error .value)
+  | some sel =>
+    let v := projChainToCycles (chainStat f s.cv sel.subset sel.chain vals) sel.chain sel.subset
+    addMetric s name (if asInt then toIntVals v else v)
+
+def computePositionInChain (s : State) : State × Except Err Out :=
+  match s.sel with
+  | none => (s, .error .value)
+  | some sel =>
+    let v := nanToMinusOne (projSubsetToCycles ((posInChain sel.chain).map fun (p : Nat) => some (p : Rat)) sel.subset)
+    ({ s with metrics := sset s.metrics "chain_position".toList v }, .ok .done)
+
+def computeChainTimings (s : State) : State × Except Err Out :=
+  seqOps s [
+    fun s => computeChainMetric s "chain_start".toList (arange s.cv.length) fFirst true,
+    fun s => computeChainMetric s "chain_end".toList (arange s.cv.length) fLast true,
+    fun s => computeChainMetric s "chain_len_samples".toList (cvRat s.cv) fLen true,
+    fun s => computeChainMetric s "chain_len_cycles".toList (cvRat s.cv) fNunique true,
+    computePositionInChain]
+
+def rowOf (m : Store) (k : Nat) : List Val := m.map fun e => (e.2[k]?).join
+
+/-- `pd.DataFrame.from_dict(metrics)`: one column per metric in insertion order, one row per cycle -/
+def tableAll (s : State) : Table := { cols := s.metrics.map (·.1), rows := (List.range s.K).map (rowOf s.metrics) }
+
+/-- the name pandas' `reset_index` gives the column holding the old row numbers: `index`,
+    `level_0` when a metric is already called `index`, ValueError when both are taken -/
+def indexColumn (names : List Name) : Except Err Name :=
+  if indexName ∉ names then .ok indexName
+  else if level0Name ∉ names then .ok level0Name
+  else .error .value
+
+/-- `d.drop(rows not kept).reset_index()`: a leading column with the cycle numbers -/
+def tableKeep (s : State) (keep : List Bool) : Except Err Table :=
+  match indexColumn (s.metrics.map (·.1)) with
+  | .error e => .error e
+  | .ok ic =>
+    .ok { cols := ic :: s.metrics.map (·.1),
+          rows := ((List.range s.K).filter fun k => keep[k]?.getD false).map
+                     fun (k : Nat) => some (k : Rat) :: rowOf s.metrics k }
+
+def exportTable (F : List Char → Option Rat) (s : State) : ExportMode → Except Err Table
+  | .all => .ok (tableAll s)
+  | .subset =>
+    match s.sel with
+    | none => .ok (tableAll s)
+    | some sel => tableKeep s (sel.subset.map fun j => decide (0 ≤ j))
+  | .conds c =>
+    match matching F s.metrics c with
+    | .error e => .error e
+    | .ok keep => tableKeep s keep
+
+def step (F : List Char → Option Rat) (s : State) : Op → State × Except Err Out
+  | .computeMetric name vals f mode => computeMetric s name vals f mode
+  | .addMetric name vals => addMetric s name vals
+  | .computeTimings => computeTimings s
+  | .pickSubset conds => pickSubset F s conds
+  | .computeChainMetric name vals f asInt => computeChainMetric s name vals f asInt
+  | .computeChainTimings => computeChainTimings s
+  | .export m =>
+    match exportTable F s m with
+    | .error e => (s, .error e)
+    | .ok t => (s, .ok (.table t))
+  | .matching conds =>
+    match matching F s.metrics conds with
+    | .error e => (s, .error e)
+    | .ok b => (s, .ok (.bools b))
+
+def run (F : List Char → Option Rat) (s : State) (ops : List Op) : State :=
+  ops.foldl (fun s o => (step F s o).1) s
+
+def isGoodF (g : Cycles.GoodCfg) (seg : List Rat) : Rat := if Cycles.isGood g seg then 1 else 0
+
+/-- `Cycles.__init__`: all-cycles label vector, cycle count, empty store, then the `is_good` metric
+    through `compute_cycle_metric` (so through the cache when it is on) -/
+def init (g : Cycles.GoodCfg) (pstep thr : Rat) (cache : Bool) (ph : List Rat) : State × Except Err Out :=
+  let cv := Cycles.paint (Cycles.cvSegs (Cycles.wrapAt pstep) (fun _ => true) ph)
+  computeMetric { cv, K := nLabels cv, phase := ph, thr, cache, metrics := [], sel := none }
+    isGoodName ph (isGoodF g) .cycle
+
+/-! ### line protocol
+
+  `CONT step= edge= twopi= endlo= thr= cache= | phase | [nprobe] | (cond chars | float table)* | ops…`
+  A condition is sent as its code points; its float table has, for every suffix start `i`,
+  the pair `(1, float(cond[i:]))` or `(0, 0)` when Python's `float` rejects that suffix.
+  An operation is a header slot `[code, …]` followed by its operands. -/
+
+open Protocol
+
+def fMean (l : List Rat) : Rat := if l.length = 0 then 0 else Sig.sum l / (l.length : Rat)
+def fMax (l : List Rat) : Rat := match l with | [] => 0 | a :: t => t.foldl max a
+def fSum (l : List Rat) : Rat := Sig.sum l
+
+def namedF : Nat → Option (List Rat → Rat)
+  | 0 => some fMean | 1 => some fMax | 2 => some fSum | 3 => some fLen
+  | 4 => some fFirst | 5 => some fLast | 6 => some fNunique
+  | _ => none
+
+def toChars? (v : List Rat) : Option (List Char) := (toNats? v).map fun l => l.map Char.ofNat
+
+abbrev FTable := List (List Char × Option Rat)
+
+def tableOf (chars : List Char) : List Rat → Option FTable
+  | fl :: v :: rest =>
+    (tableOf (chars.drop 1) rest).bind fun t =>
+      if fl = 1 then some ((chars, some v) :: t) else if fl = 0 then some ((chars, none) :: t) else none
+  | [] => some []
+  | _ => none
+
+def lookupF (t : FTable) (lit : List Char) : Option Rat :=
+  match t.find? (·.1 = lit) with
+  | some e => e.2
+  | none => none
+
+/-- read `n` conditions (two slots each) -/
+def readConds : Nat → List (List Rat) → Option (List Cond × FTable × List (List Rat))
+  | 0, rest => some ([], [], rest)
+  | n + 1, cs :: tb :: rest => do
+    let chars ← toChars? cs
+    let t ← tableOf chars tb
+    if t.length ≠ chars.length + 1 then none
+    let (cs', t', rest') ← readConds n rest
+    some (chars :: cs', t ++ t', rest')
+  | _, _ => none
+
+def readOps : Nat → Nat → List (List Rat) → Option (List Op × FTable)
+  | _, _, [] => some ([], [])
+  | 0, _, _ => none
+  | fuel + 1, nsamp, hd :: rest => do
+    let h ← toNats? hd
+    match h with
+    | [1, fc, md] =>
+      match rest with
+      | nm :: vals :: rest' => do
+        let name ← toChars? nm
+        let f ← namedF fc
+        if vals.length ≠ nsamp then none
+        let mode ← (if md = 0 then some Mode.cycle else if md = 1 then some Mode.augmented else none)
+        let (ops, t) ← readOps fuel nsamp rest'
+        some (Op.computeMetric name vals f mode :: ops, t)
+      | _ => none
+    | [2] =>
+      match rest with
+      | nm :: vals :: rest' => do
+        let name ← toChars? nm
+        let (ops, t) ← readOps fuel nsamp rest'
+        some (Op.addMetric name (vals.map some) :: ops, t)
+      | _ => none
+    | [3] => do
+      let (ops, t) ← readOps fuel nsamp rest
+      some (Op.computeTimings :: ops, t)
+    | [4, nc] => do
+      let (cs, t0, rest') ← readConds nc rest
+      let (ops, t) ← readOps fuel nsamp rest'
+      some (Op.pickSubset cs :: ops, t0 ++ t)
+    | [5] => do
+      let (ops, t) ← readOps fuel nsamp rest
+      some (Op.computeChainTimings :: ops, t)
+    | [6, fc, ai] =>
+      match rest with
+      | nm :: vals :: rest' => do
+        let name ← toChars? nm
+        let f ← namedF fc
+        if vals.length ≠ nsamp then none
+        let (ops, t) ← readOps fuel nsamp rest'
+        some (Op.computeChainMetric name vals f (ai != 0) :: ops, t)
+      | _ => none
+    | [7, 0] => do
+      let (ops, t) ← readOps fuel nsamp rest
+      some (Op.export .all :: ops, t)
+    | [7, 1] => do
+      let (ops, t) ← readOps fuel nsamp rest
+      some (Op.export .subset :: ops, t)
+    | [7, 2, nc] => do
+      let (cs, t0, rest') ← readConds nc rest
+      let (ops, t) ← readOps fuel nsamp rest'
+      some (Op.export (.conds cs) :: ops, t0 ++ t)
+    | [8, nc] => do
+      let (cs, t0, rest') ← readConds nc rest
+      let (ops, t) ← readOps fuel nsamp rest'
+      some (Op.matching cs :: ops, t0 ++ t)
+    | _ => none
+
+def fmtName (n : List Char) : String := "n:" ++ ".".intercalate (n.map fun c => toString c.toNat)
+def fmtVal : Val → String
+  | none => "nan"
+  | some r => fmtRat r
+def fmtVals (v : List Val) : String := " ".intercalate (v.map fmtVal)
+
+def fmtTable (tag : String) : Except Err Table → String
+  | .error e => s!" | {tag} err {e.kind}"
+  | .ok t =>
+    s!" | {tag} ok {t.cols.length} {t.rows.length} | COLS {" ".intercalate (t.cols.map fmtName)}" ++
+      String.join (t.rows.map fun r => s!" | ROW {fmtVals r}")
+
+def fmtBools (tag : String) : Except Err (List Bool) → String
+  | .error e => s!" | {tag} err {e.kind}"
+  | .ok b => s!" | {tag} ok {" ".intercalate (b.map fmtBool)}"
+
+def fmtStatus : Except Err Out → String
+  | .error e => s!" | ST {e.kind}"
+  | .ok .done => " | ST ok"
+  | .ok (.table t) => " | ST ok" ++ fmtTable "RT" (.ok t)
+  | .ok (.bools b) => " | ST ok" ++ fmtBools "RB" (.ok b)
+
+def fmtState (s : State) : String :=
+  s!" | K {s.K}" ++ String.join (s.metrics.map fun e => s!" | M {fmtName e.1} {fmtVals e.2}") ++
+  (match s.sel with
+   | none => " | SEL 0"
+   | some sel => s!" | SEL 1 | SUB {fmtInts sel.subset} | CH {fmtNats sel.chain} | CONDS {" ".intercalate (sel.conds.map fmtName)}")
+
+/-- what the harness observes after every step: the state, the three exports and the probe match -/
+def fmtObs (F : List Char → Option Rat) (probe : List Cond) (s : State) : String :=
+  fmtState s ++ fmtTable "TA" (exportTable F s .all) ++ fmtTable "TS" (exportTable F s .subset) ++
+  fmtTable "TC" (exportTable F s (.conds probe)) ++ fmtBools "PM" (matching F s.metrics probe) ++ " | END"
+
+def runAndPrint (F : List Char → Option Rat) (probe : List Cond) : State → List Op → String
+  | _, [] => ""
+  | s, o :: t =>
+    let r := step F s o
+    fmtStatus r.2 ++ fmtObs F probe r.1 ++ runAndPrint F probe r.1 t
+
+def handle (o : Protocol.Op) : Option String :=
+  match o.name with
+  | "CONT" => some <| Id.run do
+      let some pstep := o.rat? "step" | return "bad-op"
+      let some edge := o.rat? "edge" | return "bad-op"
+      let some twopi := o.rat? "twopi" | return "bad-op"
+      let some endlo := o.rat? "endlo" | return "bad-op"
+      let some thr := o.rat? "thr" | return "bad-op"
+      let some cache := o.nat? "cache" | return "bad-op"
+      let some slots := o.vecs.mapM id | return "bad-op"
+      match slots with
+      | ph :: np :: rest =>
+        if ph.length = 0 then return "err ValueError"
+        let some [nprobe] := toNats? np | return "bad-op"
+        let some (probe, t0, rest') := readConds nprobe rest | return "bad-op"
+        let some (ops, t1) := readOps (rest'.length + 1) ph.length rest' | return "bad-op"
+        let F := lookupF (t0 ++ t1)
+        let r := init { edge, twopi, endlo } pstep thr (cache != 0) ph
+        return "ok" ++ fmtStatus r.2 ++ fmtObs F probe r.1 ++ runAndPrint F probe r.1 ops
+      | _ => return "bad-op"
+  | _ => none
 
 end Container
